@@ -541,7 +541,7 @@ class Family:
             act = mir.active()
             domon = mon and cmd.get("mon", True) and self._small(act) and self._defs_small(mir)
             ev["mon"] = bool(domon)
-            ev["h"] = self._hints_for(act, mir.defs) if domon else []
+            ev["h"] = ([[]] if cmd.get("empty_hint") else self._hints_for(act, mir.defs)) if domon else []
             run["answers"].append(r)
             self.stats["checks"] += 1
         elif c == "get-model":
@@ -571,6 +571,13 @@ class Family:
                         raise SortError("bad value pair")
                     v = parse_term(pr[1], tb, Signature_with_sorts(sig), {}, tb.sort(t))
                     vs.append(v)
+                    # the echoed term must read back as the requested term
+                    try:
+                        echo = parse_term(pr[0], tb, sig_with_defs(sig, mir, tb), {}, None)
+                    except SmtError as ex:
+                        raise SortError("get-value echoes a term that does not read back: %s" % ex)
+                    if echo != t and cmd.get("strict_echo", True):
+                        raise SortError("get-value echoes another term than the requested one")
                 ev.update({"ts": ts, "vs": vs, "pok": True,
                            "mon": bool(mon and self._small(ts + vs + mir.active()))})
             except SmtError as ex:
